@@ -273,6 +273,23 @@ pub fn check(tg: &Target, frag: &str, t: &mut Tally) {
             bare_results.push(("inside an invisible group", (tg.conv)(&group_meta(e))));
         }
     }
+    // targets whose bare grammar is a syntactic class of expressions accept every member of it
+    let must_accept = match (squash(tg.name.to_string()).as_str(), syn::parse_str::<syn::Expr>(frag)) {
+        (_, Err(_)) => false,
+        ("syn::Expr", Ok(_)) => !is_string_fragment,
+        ("Callable", Ok(e)) => matches!(e, syn::Expr::Path(_) | syn::Expr::Closure(_)),
+        ("syn::ExprPath", Ok(e)) => matches!(e, syn::Expr::Path(_)),
+        ("syn::ExprArray", Ok(e)) => matches!(e, syn::Expr::Array(_)),
+        ("syn::ExprRange", Ok(e)) => matches!(e, syn::Expr::Range(_)),
+        ("syn::Path", Ok(e)) => matches!(e, syn::Expr::Path(p) if p.qself.is_none()),
+        ("syn::Ident", Ok(e)) => matches!(e, syn::Expr::Path(p) if p.qself.is_none() && p.path.get_ident().is_some()),
+        _ => false,
+    };
+    for (how, r) in &bare_results {
+        if must_accept && matches!(r, R::Err { .. }) {
+            bad(format!("{how}: rejected ({r:?}) although the value belongs to the target's own grammar"), t);
+        }
+    }
     for (how, r) in &bare_results {
         t.evaluations += 1;
         match r {
